@@ -276,6 +276,9 @@ func c10(c *Ctx) {
 	oldMax := store.VerifMaxCandidateCount()
 	defer store.VerifSetMaxCandidateCount(oldMax)
 
+	// ---------------- Part C first (its findings must not be cut by the failure cap) ----------------
+	c10EnginePart(c)
+
 	// ---------------- Part A: the selection sort alone ----------------
 	nRank := c.N * 4
 	for i := 0; i < nRank; i++ {
@@ -324,9 +327,12 @@ func c10(c *Ctx) {
 		c10Case(c, cs)
 	}
 
-	// ---------------- Part C: engine scenarios ----------------
-	c10EnginePart(c)
 }
+
+// at most c10MaxPerSig reports per signature, so that every defect class stays visible
+var c10SigCount = map[string]int{}
+
+const c10MaxPerSig = 12
 
 func c10Case(c *Ctx, caseNo int) {
 	max := 1 + c.Rnd.Intn(4)
@@ -350,6 +356,11 @@ func c10Case(c *Ctx, caseNo int) {
 		replay = append(replay, line+" => "+out)
 	}
 	fail := func(sig, detail string) {
+		c.Count("oracle:" + sig)
+		c10SigCount[sig]++
+		if c10SigCount[sig] > c10MaxPerSig {
+			return
+		}
 		c.Fail(sig, detail, map[string]interface{}{"case": caseNo, "seed": c.Seed, "ops": append([]string{}, replay...)})
 	}
 
@@ -638,8 +649,8 @@ func c10Case(c *Ctx, caseNo int) {
 	}
 }
 
-// c10ClassifyBranch records which branch of updateTop the block takes (computed from the parent's
-// published list, independent of the model).
+// c10ClassifyBranch records which branch of updateTop the block takes, recomputed in Go from the
+// parent's published list (independent of the model).
 func c10ClassifyBranch(c *Ctx, p *c10Live, chs []c10Change, max int, s *c10Store, pid int, anyLog bool) {
 	if !anyLog {
 		return
@@ -648,12 +659,45 @@ func c10ClassifyBranch(c *Ctx, p *c10Live, chs []c10Change, max int, s *c10Store
 	if !ok {
 		return
 	}
-	n := 0
-	Safe(func() string { n = len(s.db.GetCandidatesTop(pb.Hash())); return "" })
-	if n < max {
-		c.Count("branch:1 top-not-full")
-	} else {
-		c.Count("branch:2-4 top-full")
+	var old []c10CV
+	if Safe(func() string { old = c10FromStore(s.db.GetCandidatesTop(pb.Hash())); return "" }) == "panic" {
+		return
+	}
+	unreg := map[int]bool{}
+	for _, ch := range chs {
+		if ch.flag == 'u' {
+			unreg[ch.addr] = true
+		}
+	}
+	merged := map[int]int64{}
+	for _, o := range old {
+		if !unreg[o.addr] {
+			merged[o.addr] = o.votes
+		}
+	}
+	for _, ch := range chs {
+		if ch.logged && !unreg[ch.addr] {
+			merged[ch.addr] = ch.votes
+		}
+	}
+	var ml []c10CV
+	for a, v := range merged {
+		ml = append(ml, c10CV{a, v})
+	}
+	nt := c10FullSort(ml, max)
+	switch {
+	case len(old) < max:
+		c.Count("branch:1 list-not-full -> merge")
+	case len(old) > len(nt):
+		c.Count("branch:2 list-shrank -> re-rank all")
+	case nt[len(nt)-1].votes >= old[len(old)-1].votes:
+		if nt[len(nt)-1].votes == old[len(old)-1].votes && nt[len(nt)-1].addr > old[len(old)-1].addr {
+			c.Count("branch:3 keep merge (equal totals, larger address: the tie defect's guard fails)")
+		} else {
+			c.Count("branch:3 min-not-smaller -> keep merge")
+		}
+	default:
+		c.Count("branch:4 min-smaller -> re-rank all")
 	}
 }
 
